@@ -121,7 +121,7 @@ func projectPE(b []byte) (M, string) {
 	for k := range secs {
 		sl = append(sl, M{"size": secs[k].size, "fpos": fpos[k]})
 	}
-	return M{"bits": bits, "lfanew": lfanew, "secs": sl, "slack": slack, "gap": gap, "gappos": gappos, "trail": trail, "cert": certsz, "zptr": "zero"}, ""
+	return M{"bits": bits, "lfanew": lfanew, "secs": sl, "slack": slack, "gap": gap, "gappos": gappos, "trail": trail, "cert": certsz, "zptr": "zero", "ndirs": 16}, ""
 }
 
 func runPeProject(sc M) {
